@@ -73,8 +73,8 @@ ASSUMPTIONS = [
     "state-variable stimuli are never delivered in bursts (C04/C05 territory); events and service calls are",
 ]
 TIERS = {
-    "quick": {"runs": 16000, "chunk": 500, "shrink_budget": 25},
-    "thorough": {"runs": 200000, "chunk": 2500, "shrink_budget": 60},
+    "quick": {"runs": 8000, "chunk": 500, "shrink_budget": 25},
+    "thorough": {"runs": 100000, "chunk": 1000, "shrink_budget": 60},
 }
 REACH_PROBES = [
     "fault_in_trigger_function", "fault_in_service", "fault_in_expression", "fault_in_expression_direct",
@@ -920,6 +920,7 @@ def compare_frames(nat: list, pys: list, spec: dict, section: str) -> dict | Non
         return True
 
     labels = []
+    first_file_wrong = False
     for use_merged in (False, True):
         ref = merged if use_merged else nat
         if use_merged and merged == nat:
@@ -929,16 +930,18 @@ def compare_frames(nat: list, pys: list, spec: dict, section: str) -> dict | Non
                 if use_merged:
                     labels.append("adjacent_same_name_frames_merged")
                 if relax_first:
-                    labels.append("chained_section_first_frame_named_by_context"
-                                  + ("_and_its_file" if ref and ref[0][0] != pys[0][0] else ""))
+                    labels.append("chained_section_first_frame_named_by_context")
+                    first_file_wrong = bool(ref) and ref[0][0] != pys[0][0]
                 if relax_modfile:
                     labels.append("module_level_frame_attributed_to_importing_file")
                 break
         if labels:
             break
     if labels:
-        return {"diff": "*", "via": dropped if "adjacent_same_name_frames_merged" in labels else "*",
-                "why": "+".join(labels)}
+        via = dropped if "adjacent_same_name_frames_merged" in labels else "*"
+        if first_file_wrong:
+            via = (via + "," if via != "*" else "") + "file_of_context_too"
+        return {"diff": "*", "via": via, "why": "+".join(labels)}
     return {"diff": diff, "via": via, "why": why}
 
 
